@@ -112,7 +112,7 @@ def new_scratch(prefix="c"):
     with _scratch_lock:
         _scratch_n[0] += 1
         n = _scratch_n[0]
-    d = os.path.join(root, "%s%06d" % (prefix, n))
+    d = os.path.join(root, "%s%06d_%d" % (prefix, n, os.getpid()))     # (pid: forked pool workers share the counter's start)
     os.makedirs(d)
     return d
 
